@@ -632,6 +632,7 @@ pub fn run(cfg: &Cfg) -> Report {
     let s = parallel(cfg, 2, |t| {
         slice_flavor_histories(t);
         impure_values_lane(t, "C05");
+        call_sequences_lane(t, "C05");
     });
     rep.stats.merge(s);
     rep.floor("slice_flavor_histories", 100);
@@ -682,6 +683,10 @@ fn replay(cfg: &Cfg, p: &std::path::Path) -> Stats {
             }
             Some("impure") => {
                 impure_values_lane(t, "C05");
+                return;
+            }
+            Some("call-sequence") => {
+                call_sequences_lane(t, "C05");
                 return;
             }
             _ => {}
